@@ -18,7 +18,7 @@ ID = "C02"
 LEVEL = "model_checking"
 RULE = ("programs = one document per (property kind, required?, literal_enums?) over the kind algebra "
         "(atoms, array(k), ordered union pairs, nullable notations, typed additionalProperties, two-property "
-        "models, recursive/mutual/allOf shapes); inputs = full product of RM-inst instances per program; a case is "
+        "models, recursive/mutual/allOf shapes); plus model usage contexts (multipart / form / JSON body, both orders, response) x typed additionalProperties with undeclared keys, allOf families (parent, stricter child, sibling as targets, all 6 declaration orders, 7 child modes), nested unions whose later member would swallow an earlier member's values, 3.0.3 twins of the single-kind documents; inputs = full product of RM-inst instances per program; a case is "
         "non-trivial when the model class was generated and at least one instance was round-tripped")
 FLOOR = 0.6
 ASSUMPTIONS = ["RM-inst generates canonical forms only (ISO dates as Python prints them, lower-case UUIDs)",
@@ -93,6 +93,13 @@ def _single_cases(tier):
                     "targets": [{"component": "M", "key": f"{K.kstr(kind)}/{'req' if req else 'opt'}",
                                  "props": {"p": [K.kstr(kind), req]},
                                  "instances": _instances([("p", kind)], ["p"] if req else [])}]}}
+                d30 = gen.as_30(doc)
+                if d30 is not None and not lit:
+                    yield {"labels": labels + ["v=3.0.3"], "payload": {
+                        "doc": d30, "options": {"literal_enums": lit},
+                        "targets": [{"component": "M", "key": f"{K.kstr(kind)}/{'req' if req else 'opt'}",
+                                     "props": {"p": [K.kstr(kind), req]},
+                                     "instances": _instances([("p", kind)], ["p"] if req else [])}]}}
 
 
 def _has_enum(kind):
